@@ -263,7 +263,7 @@ def work_scale(shard):
         arg = (None,)
         classes = part.classes
         for k in range(seglen):
-            v = rnd(arg)
+            v = rnd(iter(arg))
             s = (s * A + C) & MASK
             got = r._seed
             if got != s:
@@ -292,7 +292,7 @@ def work_scale(shard):
         zero = vals.new_single()
         for s in states:
             r._seed = s
-            v = rnd((zero,))
+            v = rnd(iter((zero,)))
             if r._seed != s:
                 part.violation('rnd0/state-changed', 'RND(0) in state %d moved to %r' % (s, r._seed),
                                {'kind': 'rnd0', 'state': s})
@@ -421,7 +421,7 @@ def work_rndneg(shard):
         for old in OLD_STATES:
             r._seed = old
             try:
-                v = rnd((val,))
+                v = rnd(iter((val,)))
             except BASICError as e:
                 part.violation('rndx/basic-error/%s' % tname, 'RND(%r) raised %d' % (val, e.err), dict(case, old=old))
                 continue
@@ -630,7 +630,10 @@ def work_stmt(shard):
 # ---------------------------------------------------------------------------
 # histories
 
-HOPS = ['RND', 'RND(0)', 'RND(1)', 'RND(-1)', 'RND(-2.5)', 'RANDOMIZE 7', 'RANDOMIZE CINT(-3)', 'CLEAR', 'RUN']
+HOPS = ['RND', 'RND(0)', 'RND(1)', 'RND(-1)', 'RND(-2.5)', 'RANDOMIZE 7', 'RANDOMIZE CINT(-3)', 'CLEAR', 'RUN',
+        # refused (no closing bracket / bad argument): the sequence is where it was
+        'RND(1', 'RND(-7', 'RND("a")']
+REFUSED_HOPS = {'RND(1': 2, 'RND(-7': 2, 'RND("a")': 13}
 _M1 = 0x800000          # mantissa of 1
 _M25 = 0xa00000         # mantissa of 2.5
 
@@ -658,6 +661,8 @@ def _ref_hist(state, op):
         # program: 10 X!=RND  -> restart, then one RND
         s = lcg(SEED0)
         return s, s
+    if op in REFUSED_HOPS:
+        return state, None
     raise CheckError(op)
 
 
@@ -689,7 +694,11 @@ def _run_history(part, hist):
             if r.exc is not None:
                 part.violation('history/host-exception/' + H.exc_key(r.exc), repr(r.exc), case)
                 return
-            if r.err is not None:
+            if op in REFUSED_HOPS:
+                if r.err != REFUSED_HOPS[op]:
+                    part.violation('history/refused-call/wrong-outcome', '%s: error %r, expected %d' % (stmt, r.err, REFUSED_HOPS[op]), case)
+                    return
+            elif r.err is not None:
                 part.violation('history/basic-error/' + op.split('(')[0].split(' ')[0], '%s: error %r' % (stmt, r.err), case)
                 return
             state, val = _ref_hist(state, op)
